@@ -75,6 +75,10 @@ def seeded():
 def main():
     t = open(os.path.join(HERE, 'DESIGN.tmpl.md')).read()
     t = t.replace('@@PER_PROPERTY@@', per_property()).replace('@@FINDINGS@@', findings()).replace('@@SEEDED@@', seeded())
+    lines = open(os.path.join(HERE, 'KNOWN_FINDINGS.txt')).read().split('\n')
+    nf = sum(1 for l in lines if l.startswith('fixed:'))
+    nk = sum(1 for l in lines if l.startswith('known:'))
+    t = t.replace('@@NTOTAL@@', str(nf + nk)).replace('@@NFIXED@@', str(nf)).replace('@@NKNOWN@@', str(nk))
     open(os.path.join(HERE, 'DESIGN.md'), 'w').write(t)
 
 if __name__ == '__main__':
